@@ -223,6 +223,37 @@ func genC11(rt *rapid.T) C11Case {
 		rt.Fatalf("naming model: %v", err)
 	}
 	c.Prefix = rapid.SampledFrom([]string{"", "", "", "APP", "C11", "my_app", "Svc2", "X", "APP_"}).Draw(rt, "prefix")
+	// In a share of the cases the prefix is the leading word(s) of some leaf's
+	// own name (Prefix "DB", leaf DB.Host): the documented variable is
+	// DB_DB_HOST, never the un-prefixed look-alike DB_HOST.
+	forceSet := map[string]bool{}
+	type lookAlike struct{ name, typ string }
+	var lookAlikes []lookAlike
+	if rapid.IntRange(0, 3).Draw(rt, "prefix_from_name") == 0 {
+		var cands []c11Leaf
+		for _, l := range leaves {
+			if !l.Skipped && strings.Contains(strings.Trim(l.Name, "_"), "_") {
+				cands = append(cands, l)
+			}
+		}
+		if len(cands) > 0 {
+			l := rapid.SampledFrom(cands).Draw(rt, "prefix_leaf")
+			parts := strings.Split(l.Name, "_")
+			k := rapid.IntRange(1, min(3, len(parts)-1)).Draw(rt, "prefix_words")
+			if p := strings.Join(parts[:k], "_"); p != "" {
+				c.Prefix = p
+				noteTag(fmt.Sprintf("prefix-from-leaf-name:%d-word", k))
+			}
+		}
+	}
+	if c.Prefix != "" {
+		for _, l := range leaves {
+			if !l.Skipped && strings.HasPrefix(l.Name, c.Prefix+"_") {
+				forceSet[fullName(c.Prefix, l.Name)] = true
+				lookAlikes = append(lookAlikes, lookAlike{l.Name, l.Type})
+			}
+		}
+	}
 
 	// defaults
 	d := shape.GenData(rt, shape.Walk(T), 0, 0)
@@ -237,7 +268,7 @@ func genC11(rt *rapid.T) C11Case {
 		if !g.settable {
 			continue
 		}
-		if rapid.IntRange(0, 99).Draw(rt, "set") >= density {
+		if rapid.IntRange(0, 99).Draw(rt, "set") >= density && !(forceSet[name] && rapid.IntRange(0, 3).Draw(rt, "force_set") > 0) {
 			unset = append(unset, name)
 			continue
 		}
@@ -285,6 +316,20 @@ func genC11(rt *rapid.T) C11Case {
 	}
 	nn := rapid.IntRange(0, 6).Draw(rt, "n_noise")
 	seenNoise := map[string]bool{}
+	// the un-prefixed look-alike of a leaf whose name starts with the prefix,
+	// holding a different (acceptable) text
+	for i, la := range lookAlikes {
+		if i >= 4 || real[la.name] || seenNoise[la.name] || la.name == "" {
+			continue
+		}
+		txt := "1"
+		if !c11IsInert(la.typ) {
+			txt = genValue(rt, shape.MustType(la.typ)).Text
+		}
+		seenNoise[la.name] = true
+		c.Noise = append(c.Noise, C11Var{Name: la.name, Text: txt})
+		noteTag("noise:unprefixed-look-alike")
+	}
 	for i := 0; i < nn && len(leaves) > 0; i++ {
 		l := rapid.SampledFrom(leaves).Draw(rt, "noise_leaf")
 		fn := fullName(c.Prefix, l.Name)
@@ -597,6 +642,17 @@ func runC11(c C11Case) vrt.Verdict {
 			collision = true
 		}
 	}
+	prefixStartsName := false
+	for _, l := range leaves {
+		if !l.Skipped && c.Prefix != "" && strings.HasPrefix(l.Name, c.Prefix+"_") {
+			if _, ok := wantByPath[l.Path]; ok {
+				prefixStartsName = true
+			}
+		}
+	}
+	if prefixStartsName {
+		labels = append(labels, "set-leaf-name-starts-with-prefix")
+	}
 	labels = append(labels, fmt.Sprintf("depth=%d", maxDepth), fmt.Sprintf("vars=%d", min(len(c.Vars), 5)))
 	for cond, l := range map[string]bool{"inner-dials-tag": innerTag, "dialsenv-tag": anyEnvTag, "embedded": anyEmbedded, "inert-leaf": anyInert,
 		"shared-variable": collision, "flat-name-collision": flatCollision, "prefix": c.Prefix != "", "noise": len(c.Noise) > 0, "bad-value": c.Bad != nil} {
@@ -720,8 +776,8 @@ func runC11(c C11Case) vrt.Verdict {
 }
 
 const c11Rule = "config struct types from the shape grammar restricted to leaves the env source casts from text (bool, ints, uints, floats, complex, string, time.Duration, pointers to scalars, slices of scalars, maps with string keys incl. sets and map[string][]string, named collection types) plus inert leaves it cannot fill (time.Time, text-unmarshalable structs, arrays, uintptr, **int, net.IP), nested / pointer / embedded structs to depth 3, skipped fields in half the cases; " +
-	"`dials` tags at any level rendered from word lists in snake, kebab, lowerCamel, UpperCamel, the four spellings DecodeGoTags documents (initialisms in camel tags come from the golint list and are fully capitalised except as the leading word of a lowerCamel tag; every other word has >= 3 letters; digit runs only as whole non-leading snake/kebab components), `dialsenv` tags on leaves, optional prefix; " +
-	"a subset of variables set (10/50/90 % density) with boundary-biased values and quoting-heavy strings rendered by the harness (strconv, Duration.String, the documented comma/colon collection syntax with Go quoting); noise variables derived from real names (wrong case, missing/extra prefix, dropped or doubled separators, path-joined name of a dialsenv leaf, names of skipped fields, prefixes/suffixes, sibling joins); in 1/4 of the cases one unparsable or just-out-of-range text. " +
+	"`dials` tags at any level rendered from word lists in snake, kebab, lowerCamel, UpperCamel, the four spellings DecodeGoTags documents (initialisms in camel tags come from the golint list and are fully capitalised except as the leading word of a lowerCamel tag; every other word has >= 3 letters; digit runs only as whole non-leading snake/kebab components), `dialsenv` tags on leaves, optional prefix (fixed spellings, or in 1/4 of the cases the leading 1..3 words of some leaf's own derived name or dialsenv tag, e.g. Prefix DB with leaf DB.Host: the documented variable DB_DB_HOST is then usually set and the un-prefixed look-alike DB_HOST is present as noise with another acceptable text); " +
+	"a subset of variables set (10/50/90 % density) with boundary-biased values and quoting-heavy strings rendered by the harness (strconv, Duration.String, the documented comma/colon collection syntax with Go quoting; in string-valued maps and map[string][]string an empty value is often written as a value-less entry `k` or `k:`, also right after valued entries, which means the empty text for every map kind on the unmodified parser); noise variables derived from real names (wrong case, missing/extra prefix, dropped or doubled separators, path-joined name of a dialsenv leaf, names of skipped fields, prefixes/suffixes, sibling joins); in 1/4 of the cases one unparsable or just-out-of-range text (incl. float32/complex64 parts just beyond float32, and for scalar-valued maps a value-less entry after a valued one: a:10,b: is an error, not b:10). " +
 	"Oracle: expected variable name known by construction (dialsenv verbatim, else UPPER_SNAKE of tag/name words along the path, untagged embedded structs contribute nothing, prefix + '_' in front of every name); result has the requested type; a leaf is non-nil iff its variable is present and then equals the generated value; defaults stacked with the result equal defaults with exactly those leaves replaced; a bad text gives an error and an invalid Value. " +
 	"non-trivial = (>=2 levels of nesting or a dials tag on an inner level) and >=2 variables set; distinct = distinct case JSON"
 
